@@ -428,6 +428,13 @@ pub trait Hijack {
     fn as_ref(&self) -> ! { loop {} } fn borrow(&self) -> ! { loop {} } fn to_owned(&self) -> ! { loop {} } fn reverse(self) -> ! where Self: Sized { loop {} }
     fn then_with<Z>(self, _: Z) -> ! where Self: Sized { loop {} } fn map<Z>(self, _: Z) -> ! where Self: Sized { loop {} }
     fn is_eq(&self) -> ! { loop {} } fn unwrap(self) -> ! where Self: Sized { loop {} }
+    // by-value methods named like the `Debug` builders' `&mut self` ones: on a builder *value* (`f.debug_tuple("X").finish()`)
+    // the by-value method of a trait in scope is found before the inherent method that needs an auto-ref (F31)
+    fn finish(self) -> ! where Self: Sized { loop {} } fn field<Z>(self, _: Z) -> ! where Self: Sized { loop {} }
+    fn debug_struct(self, _: &str) -> ! where Self: Sized { loop {} } fn debug_tuple(self, _: &str) -> ! where Self: Sized { loop {} }
+    fn finish_non_exhaustive(self) -> ! where Self: Sized { loop {} } fn entry<Z>(self, _: Z) -> ! where Self: Sized { loop {} }
+    fn write_str(self, _: &str) -> ! where Self: Sized { loop {} } fn as_str(self) -> ! where Self: Sized { loop {} }
+    fn then(self, _: ::core::cmp::Ordering) -> ! where Self: Sized { loop {} } fn ok(self) -> ! where Self: Sized { loop {} }
 }
 impl<T: ?Sized> Hijack for T {}
 '''
